@@ -30,6 +30,7 @@ import (
 	"runtime"
 	"strconv"
 	"sync"
+	"sync/atomic"
 	"testing"
 	"time"
 
@@ -40,7 +41,32 @@ const (
 	bnBlockT  = 10 * time.Second // a call / hand-over that takes longer is "blocked" (normal: microseconds)
 	bnSettleT = 2 * time.Second  // bounded polling for the forwarders to settle
 	bnShortT  = 20 * time.Millisecond
+	bnLateT   = 500 * time.Millisecond
 )
+
+// bnTimeouts counts the long waits that ran out.  On code that behaves the
+// count stays 0.  Once a few have expired the run has its verdict already,
+// and the remaining paths use bnLateT (still > 10000x the normal latency) so
+// that a broken tree does not take hours to report.
+var bnTimeouts int32
+
+func bnLong() time.Duration {
+	if atomic.LoadInt32(&bnTimeouts) >= 4 {
+		return bnLateT
+	}
+	return bnBlockT
+}
+
+func bnExpired() { atomic.AddInt32(&bnTimeouts, 1) }
+
+// bnOffPaths counts replayed paths on which the code left the model's
+// prediction (0 on the unchanged tree).  The first bnOffKeep of them are
+// still fed their remaining steps (judged by Props alone); after that a
+// path is abandoned at its first deviating step and waits are cut, so that
+// a tree that deviates everywhere still reports within minutes.
+var bnOffPaths int32
+
+const bnOffKeep = 48
 
 type bnAct struct {
 	Op  string `json:"op"`
@@ -187,6 +213,9 @@ func (s *bnSource) NotificationsSinceHeight(height uint32) ([]BlockNtfn, uint32,
 // waitFor waits (woken by the handler's loop ticks, bounded) until cond holds
 // under mu.
 func (s *bnSource) waitFor(limit time.Duration, cond func() bool) bool {
+	if limit == bnBlockT {
+		limit = bnLong()
+	}
 	deadline := time.Now().Add(limit)
 	for {
 		s.mu.Lock()
@@ -199,6 +228,7 @@ func (s *bnSource) waitFor(limit time.Duration, cond func() bool) bool {
 		}
 		left := time.Until(deadline)
 		if left <= 0 {
+			bnExpired()
 			return false
 		}
 		if left > 5*time.Millisecond {
@@ -217,10 +247,14 @@ func bnCall(limit time.Duration, fn func()) bool {
 		defer close(done)
 		fn()
 	}()
+	if limit == bnBlockT {
+		limit = bnLong()
+	}
 	select {
 	case <-done:
 		return true
 	case <-time.After(limit):
+		bnExpired()
 		return false
 	}
 }
@@ -288,6 +322,9 @@ func (e *bnEnv) readOne(s int, limit time.Duration) int {
 	case x, ok := <-e.subs[s].Notifications:
 		return e.took(s, x, ok)
 	case <-tm:
+		if limit >= bnLateT {
+			bnExpired()
+		}
 		return -1
 	}
 }
@@ -318,6 +355,8 @@ func (e *bnEnv) settle(pred *bnObs) {
 	limit := bnSettleT
 	if e.off {
 		limit = bnShortT
+	} else if atomic.LoadInt32(&bnOffPaths) >= bnOffKeep {
+		limit = 30 * time.Millisecond
 	}
 	deadline := time.Now().Add(limit)
 	for i := 0; ; i++ {
@@ -347,9 +386,11 @@ func (e *bnEnv) settle(pred *bnObs) {
 func (e *bnEnv) exec(in bnStepIn) bnStepOut {
 	a := in.Act
 	out := bnStepOut{Act: a}
-	long := bnBlockT
+	long := bnLong()
 	if e.off {
 		long = 200 * time.Millisecond
+	} else if atomic.LoadInt32(&bnOffPaths) >= bnOffKeep {
+		long = 250 * time.Millisecond
 	}
 	switch a.Op {
 	case "Subscribe":
@@ -529,9 +570,13 @@ func bnRunPath(p bnPathIn) (out bnPathOut) {
 		if op == "Emit" && e.stopped {
 			break
 		}
+		was := e.off
 		so := e.exec(st)
 		out.Steps = append(out.Steps, so)
 		if so.Act.Res == "blocked" {
+			break
+		}
+		if e.off && !was && atomic.AddInt32(&bnOffPaths, 1) > bnOffKeep {
 			break
 		}
 	}
@@ -695,6 +740,7 @@ func bnFreeRun(id int, seed int64, minEv, maxEv int) (out bnPathOut) {
 		stopAt = rng.Intn(nev + 1)
 	}
 	burst := rng.Intn(3) == 0 // emitter without think times
+	early := rng.Intn(4) == 0 // emitter starts before anybody has subscribed
 	plans := make([]bnSubPlan, n)
 	modes := []string{"fast", "fast", "slow", "stall", "never"}
 	neverMask := 0
@@ -715,7 +761,7 @@ func bnFreeRun(id int, seed int64, minEv, maxEv int) (out bnPathOut) {
 		}
 		plans[s] = p
 	}
-	out.Info = fmt.Sprintf("seed=%d subs=%d events=%d stopAt=%d burst=%v plans=%+v", seed, n, nev, stopAt, burst, plans)
+	out.Info = fmt.Sprintf("seed=%d subs=%d events=%d stopAt=%d burst=%v early=%v plans=%+v", seed, n, nev, stopAt, burst, early, plans)
 
 	phaseDone := make(chan struct{})
 	var subMu sync.Mutex
@@ -734,6 +780,9 @@ func bnFreeRun(id int, seed int64, minEv, maxEv int) (out bnPathOut) {
 	go func() {
 		defer close(emitDone)
 		erng := rand.New(rand.NewSource(seed ^ 0x5eed))
+		if !early {
+			src.waitFor(deadline, func() bool { return f.cst[0] != 0 || f.stopRet || f.failed })
+		}
 		for k := 1; k <= nev; k++ {
 			if !burst && erng.Intn(3) == 0 {
 				time.Sleep(time.Duration(erng.Intn(150)) * time.Microsecond)
@@ -924,11 +973,14 @@ func bnFreeRun(id int, seed int64, minEv, maxEv int) (out bnPathOut) {
 						}
 						return 0
 					case <-time.After(limit):
+						if limit >= bnLateT {
+							bnExpired()
+						}
 						return -1
 					}
 				}
 				if ended {
-					for read(bnBlockT) == 1 {
+					for read(bnLong()) == 1 {
 					}
 					return
 				}
@@ -936,7 +988,7 @@ func bnFreeRun(id int, seed int64, minEv, maxEv int) (out bnPathOut) {
 					src.mu.Lock()
 					have := len(f.recv[s])
 					src.mu.Unlock()
-					if have >= want || read(bnBlockT) != 1 {
+					if have >= want || read(bnLong()) != 1 {
 						break
 					}
 				}
